@@ -104,11 +104,13 @@ pub fn run(ctx: &Ctx) -> i32 {
                 let mut f = base.clone();
                 // replace an existing profile chunk's meaning by inserting the unsupported one
                 let (ty, flags, icc) = kinds[*k].clone();
-                f.frames[*fi].chunks.insert(*pos, Chunk::new(Body::ColorProfile(ColorProfile { ty, flags, gamma: 0x0002_3333, reserved: [0; 8], icc })));
+                // gamma field: 2.2, exactly 1.0 (the identity curve), 0 and the maximum, rotating with the position
+                let gamma = [0x0002_3333u32, 0x0001_0000, 0, 0xFFFF_FFFF][(*pos + *fi) % 4];
+                f.frames[*fi].chunks.insert(*pos, Chunk::new(Body::ColorProfile(ColorProfile { ty, flags, gamma, reserved: [0; 8], icc })));
                 expect_err_class(ctx, "color-profile", &case, &f.encode(), "the file carries an embedded ICC profile or the fixed-gamma flag", hash64(&("profile", bn, fi, pos, k)));
             });
         }
-        ctx.family("color-profile", n, "colour profile chunk of type ICC (with payload / empty payload / no payload field) or with the fixed-gamma flag on type none/sRGB/ICC, inserted at every chunk boundary of every frame of every base", true);
+        ctx.family("color-profile", n, "colour profile chunk of type ICC (with payload / empty payload / no payload field) or with the fixed-gamma flag on type none/sRGB/ICC (gamma 2.2 / exactly 1.0 / 0 / maximum), inserted at every chunk boundary of every frame of every base", true);
     }
 
     // enum sweeps
